@@ -13,7 +13,7 @@ func init() {
 	register(&CheckDef{Name: "route", Props: []string{"C04"}, Run: runRoute, Replay: replayRoute})
 }
 
-var routeUniverse = [][]string{{}, {"-f"}, {"x"}, {"-f", "x"}, {"x", "y"}, {"-z"}}
+var routeUniverse = [][]string{{}, {"-f"}, {"x"}, {"-f", "x"}, {"x", "y"}, {"-z"}, {"--"}, {"--", "x"}, {"-f", "--", "-f"}}
 
 func kindAssignments(nslots int, kinds []int, f func(assign []int)) {
 	a := make([]int, nslots)
@@ -33,12 +33,12 @@ func kindAssignments(nslots int, kinds []int, f func(assign []int)) {
 
 func runRoute(c *Ctx) {
 	idx := 0
-	kinds := []int{0, 1, 2, 3, 4, 5}
+	kinds := []int{0, 1, 2, 3, 4, 5, 8}
 	for si, shape := range treeShapes(c.Thorough()) {
 		slots := numberSlots(shape)
 		ks := kinds
 		if len(slots) > 4 {
-			ks = []int{0, 3, 4, 5} // deeper tree: fewer kinds per level
+			ks = []int{0, 3, 5, 8} // deeper tree: fewer kinds per level
 		}
 		ntrees := 0
 		kindAssignments(len(slots), ks, func(assign []int) {
